@@ -4,6 +4,7 @@ import Pk.Inst
 import Pk.Lift
 import Pk.Predict
 import Pk.Score
+import Pk.ScoreG
 import Pk.Config
 import Pk.Tsvd
 import Pk.Names
@@ -146,6 +147,7 @@ def pMetric : P Metric := do
   match t with
   | "mse" => pure .mse
   | "mae" => pure .mae
+  | "mape" => pure .mape
   | _ => throw s!"metric expected: {t}"
 
 def showScore : ScoreOut → String
@@ -166,6 +168,18 @@ def cmdScore : P String := do
   let Pm ← pMat pRat
   let E ← pMat pRat
   pure (showScore (scoreTrajectory fin m es ns g ms Pm E))
+
+/-- `scoreg <r2|ev> <finite 0|1> <error_score> <nsteps|n> <gamma> <min_samples> <mat P> <mat E>` -/
+def cmdScoreG : P String := do
+  let t ← tok
+  let m ← match t with
+    | "r2" => pure GMetric.r2
+    | "ev" => pure GMetric.ev
+    | _ => throw s!"r2|ev expected: {t}"
+  let fin ← pBool; let es ← pErrScore; let ns ← pOptNat; let g ← pRat; let ms ← pNat
+  let Pm ← pMat pRat
+  let E ← pMat pRat
+  pure (showScore (scoreTrajectoryG fin m es ns g ms Pm E))
 
 /-- `scorer <multistep> <relift> <metric> <error_score> <nsteps|n> <gamma> nx nu <stage> <K> <mat>` -/
 def cmdScorer : P String := do
@@ -448,6 +462,7 @@ def dispatch : P String := do
   | "cprog" => cmdCProg
   | "weights" => cmdWeights
   | "score" => cmdScore
+  | "scoreg" => cmdScoreG
   | "scorer" => cmdScorer
   | _ => throw s!"bad command {cmd}"
 
